@@ -11,7 +11,7 @@ from .common import ScriptedApp, build_request, token_body
 
 PROPERTY = "C13"
 LEVEL = "fault_enumeration"
-BUDGET = {"quick": 25, "thorough": 540}
+BUDGET = {"quick": 40, "thorough": 540}
 RECV_ERRS = ["ECONNRESET", "ENOTCONN", "EBADF", "EINVAL", "ETIMEDOUT", "EAGAIN", "EOF", "FIN"]  # EAGAIN = spurious readiness
 SEND_ERRS = ["EPIPE", "ECONNRESET", "ENOTCONN", "EBADF", "EINVAL", "EHOSTUNREACH", "RST"]
 ACCEPT_ERRS = ["ECONNABORTED", "EMFILE", "EINVAL"]
